@@ -761,9 +761,20 @@ class VizierServicer(vizier_service_pb2_grpc.VizierServiceServicer):
       temp_pythia_service = self._select_pythia_service(
           study_config.pythia_endpoint
       )
-      early_stopping_decisions_proto = temp_pythia_service.EarlyStop(
-          early_stop_request_proto
-      )
+      try:
+        early_stopping_decisions_proto = temp_pythia_service.EarlyStop(
+            early_stop_request_proto
+        )
+      except Exception:  # pylint: disable=broad-except
+        # Don't leave the operation ACTIVE, otherwise every later check of this
+        # trial would be answered from it without reaching Pythia again.
+        output_operation.status = (
+            vizier_oss_pb2.EarlyStoppingOperation.Status.DONE
+        )
+        output_operation.should_stop = False
+        output_operation.completion_time.CopyFrom(_get_current_time())
+        self.datastore.update_early_stopping_operation(output_operation)
+        raise
       early_stopping_decisions = svz.EarlyStopConverter.from_decisions_proto(
           early_stopping_decisions_proto
       )
